@@ -172,6 +172,24 @@ def run(pm, ctx):
               'field', aset.loc,
               msg='Attribute.__set__ marks a field unset for values other than None: its key would '
                   'be omitted from the encoding', key='C05-R3|%s|unset' % aset.qualname)
+    adel = pm.func('stone.backends.python_rsrc.stone_base.Attribute.__delete__')
+    pdel = path_info(adel.node)
+    sets = [n for n in own_nodes(adel.node) if isinstance(n, ast.Call) and
+            call_name(n) == 'setattr' and len(n.args) == 3]
+    ctx.check('C05-R3', len(sets) == 1 and unparse(sets[0].args[2]) == 'NOT_SET' and
+              unparse(sets[0].args[1]) == 'self.name' and not pdel.at(sets[0]),
+              'deleting a field leaves its slot unset (so its key is omitted)', adel.loc,
+              msg='Attribute.__delete__ no longer stores NOT_SET unconditionally: a deleted '
+                  'field would still be encoded', key='C05-R3|%s|unset' % adel.qualname)
+    # the raw slot is written by the descriptor only
+    base = pm.module('stone.backends.python_rsrc.stone_base')
+    writers = sorted({f.short for f in pm.funcs_in(base.name) for n in own_nodes(f.node)
+                      if isinstance(n, ast.Call) and call_name(n) == 'setattr' and
+                      len(n.args) == 3 and unparse(n.args[1]) == 'self.name'})
+    ctx.check('C05-R3', writers == ['backends.python_rsrc.stone_base.Attribute.__delete__',
+                                    'backends.python_rsrc.stone_base.Attribute.__set__'],
+              'only Attribute.__set__/__delete__ write a field slot', base.relpath,
+              msg='field slots are written by %s' % writers, key='C05-R3|slot-writers')
     est = pm.func(ENC + '.encode_struct_tree')
     body = [unparse(n) for n in own_nodes(est.node) if isinstance(n, (ast.Assign, ast.Expr))]
     try:
